@@ -904,3 +904,64 @@ package control
 //@   at call dnsCacheBaseKey#1 assert a0 == k
 //@   at call rememberDnsKnowledge#1 assert a0 == c && a2 == v.OriginalDeadline
 //@   at call triggerBpfUpdateIfNeeded#1 assert a1 == v && a2 == now
+
+// C01/C02 (which lowering serves which condition): every routing function name is registered with the
+// parser of its value kind wrapped around the lowering of THAT condition (destination vs source address,
+// destination vs source port, ...), for this builder.
+//@ func (*RoutingMatcherBuilder).registerProgramParsers
+//@   anchorsonly
+//@   nonilcheck
+//@   dyncalls noeffect
+//@   modifies *
+//@   ghostfn pf(k int) int
+//@   at call PlainParserFactory#1 assert methodvalue(a0, b, "addDomain")
+//@   at call PlainParserFactory#1 assume-after result == pf(1)
+//@   at call RegisterFunctionParser#1 assert a0 == rulesBuilder && a1 == consts.Function_Domain && a2 == pf(1)
+//@   at call IpParserFactory#1 assert methodvalue(a0, b, "addIp")
+//@   at call IpParserFactory#1 assume-after result == pf(2)
+//@   at call RegisterFunctionParser#2 assert a1 == consts.Function_Ip && a2 == pf(2)
+//@   at call IpParserFactory#2 assert methodvalue(a0, b, "addSourceIp")
+//@   at call IpParserFactory#2 assume-after result == pf(3)
+//@   at call RegisterFunctionParser#3 assert a1 == consts.Function_SourceIp && a2 == pf(3)
+//@   at call PortRangeParserFactory#1 assert methodvalue(a0, b, "addPort")
+//@   at call PortRangeParserFactory#1 assume-after result == pf(4)
+//@   at call RegisterFunctionParser#4 assert a1 == consts.Function_Port && a2 == pf(4)
+//@   at call PortRangeParserFactory#2 assert methodvalue(a0, b, "addSourcePort")
+//@   at call PortRangeParserFactory#2 assume-after result == pf(5)
+//@   at call RegisterFunctionParser#5 assert a1 == consts.Function_SourcePort && a2 == pf(5)
+//@   at call L4ProtoParserFactory#1 assert methodvalue(a0, b, "addL4Proto")
+//@   at call L4ProtoParserFactory#1 assume-after result == pf(6)
+//@   at call RegisterFunctionParser#6 assert a1 == consts.Function_L4Proto && a2 == pf(6)
+//@   at call MacParserFactory#1 assert methodvalue(a0, b, "addSourceMac")
+//@   at call MacParserFactory#1 assume-after result == pf(7)
+//@   at call RegisterFunctionParser#7 assert a1 == consts.Function_Mac && a2 == pf(7)
+//@   at call ProcessNameParserFactory#1 assert methodvalue(a0, b, "addProcessName")
+//@   at call ProcessNameParserFactory#1 assume-after result == pf(8)
+//@   at call RegisterFunctionParser#8 assert a1 == consts.Function_ProcessName && a2 == pf(8)
+//@   at call UintParserFactory#1 assert methodvalue(a0, b, "addDscp")
+//@   at call UintParserFactory#1 assume-after result == pf(9)
+//@   at call RegisterFunctionParser#9 assert a1 == consts.Function_Dscp && a2 == pf(9)
+//@   at call IpVersionParserFactory#1 assert methodvalue(a0, b, "addIpVersion")
+//@   at call IpVersionParserFactory#1 assume-after result == pf(10)
+//@   at call RegisterFunctionParser#10 assert a1 == consts.Function_IpVersion && a2 == pf(10)
+//@   ensures calls("RegisterFunctionParser") == 10
+
+// the builder lowers the program with its own parsers and its own fallback lowering
+//@ func NewRoutingMatcherBuilderFromProgram
+//@   anchorsonly
+//@   nonilcheck
+//@   dyncalls noeffect
+//@   modifies *
+//@   at call Lower#1 assert a0 == program && methodvalue(a2, b, "registerProgramParsers") && methodvalue(a3, b, "addFallback") && b.outboundName2Id == outboundName2Id
+//@   ensures err == nil ==> calls("Lower") == 1
+
+// every kernel record is compiled, in order, into the userspace rule at the same position
+//@ func compileRoutingMatches
+//@   nonilcheck
+//@   dyncalls noeffect
+//@   modifies *
+//@   at call compileRoutingMatch#1 assert a0 == matches[$idx] && len(compiled) == $idx
+//@   at call builtin:append#1 assert a0 == compiled && len(compiled) == $idx && err == nil
+//@   ensures result1 == nil ==> len(result0) == len(matches)
+//@   loop 1
+//@     invariant len(compiled) == $idx
